@@ -72,6 +72,14 @@ CLAIMED["C12"] = dict(engine="yast+yir",
          "runtime checks each compile-time slot/stride is compared with the installed cell of the same position and a mismatch (only) reaches the "
          "handler. The numbers update computes are run-time values and are not decided.",
     design_ref="DESIGN.md section 4, C12")
+CLAIMED["C13"] = dict(engine="yast",
+    technique="AST counting rule: affine contributions to each declared extent vs values emitted / read per class and entry; truth-table comparison of branch predicates; flag-bit and cell-order agreement across encoder, decoder, augment_methods",
+    text="Decides necessary structural agreement between the encoder, the decoder and update's numbering: each declared array extent equals what "
+         "the decoder reads or writes per method / class / entry (as affine terms under loop and branch context), the three sites that distinguish "
+         "index entries from (method, group) pairs use equivalent predicates, index and stop bits are set where the decoder expects them, error cells "
+         "are appended in the order augment_methods numbers them. Does not decide that in-place decoding never overtakes unread input (headroom depends "
+         "on run-time sizes) nor that the emitted text compiles for every registry. One recorded finding (class with an empty v-table).",
+    design_ref="DESIGN.md section 4, C13")
 NA = {
 }
 DEFAULT_NA = "check not built yet (see DESIGN.md section 4 for the planned clause)"
